@@ -127,13 +127,28 @@ class _Fut:
             raise self._exc
         return self._res
 
+    # the rest of the concurrent.futures / asyncio Future interface a caller may legitimately use
+    def exception(self):
+        return self._exc
+
+    def done(self):
+        return True
+
+    def cancelled(self):
+        return False
+
+
+class InjectedFailure(RuntimeError):
+    """an exception raised inside an MD job on purpose (run_sim(fail_jobs=...))"""
+
 
 class InProcRunner:
     """Stands for aiorunner: executes run_md eagerly on a pickled copy (process boundary)."""
 
-    def __init__(self, recorder=None):
+    def __init__(self, recorder=None, fail_jobs=()):
         self.n = 0
         self.recorder = recorder
+        self.fail_jobs = set(fail_jobs or ())     # ordinals (within this run) of jobs that raise instead of running
         self._handed = []          # every unit object handed in (kept alive: identities stay unique)
         self.aliased = []          # ordinals of units that were the same object as an earlier unit
 
@@ -149,6 +164,8 @@ class InProcRunner:
         if self.recorder is not None:
             self.recorder.on_submit(self.n, md)
         try:
+            if self.n in self.fail_jobs:
+                raise InjectedFailure(f"injected failure inside MD job {self.n}")
             out = run_md(md)
             out = pickle.loads(pickle.dumps(out))
             fut = _Fut(out, None, self.n)
@@ -221,7 +238,7 @@ def reset_class_state():
 
 
 def run_sim(wd, inp="infretis.toml", schedule=None, stop_after=None, recorder=None, steps=None,
-            mutate_config=None):
+            mutate_config=None, workers=None, fail_jobs=None):
     """Run the real program in `wd`.  Returns dict(status=..., completed=[ordinals], ...)."""
     import infretis.scheduler as sched
     from infretis.setup import setup_config
@@ -238,12 +255,15 @@ def run_sim(wd, inp="infretis.toml", schedule=None, stop_after=None, recorder=No
     os.getpid = lambda: base_pid + 100000 * run_no
     try:
         reset_class_state()
-        if steps is not None:
+        if steps is not None or workers is not None:
             import tomli
             import tomli_w
             with open(inp, "rb") as f:
                 c = tomli.load(f)
-            c["simulation"]["steps"] = steps
+            if steps is not None:
+                c["simulation"]["steps"] = steps
+            if workers is not None:
+                c["runner"]["workers"] = workers      # the user edits the file before continuing
             with open(inp, "wb") as f:
                 tomli_w.dump(c, f)
         config = setup_config(inp)
@@ -252,7 +272,7 @@ def run_sim(wd, inp="infretis.toml", schedule=None, stop_after=None, recorder=No
         if mutate_config:
             mutate_config(config)
         futs = SchedFutures(schedule, stop_after, recorder)
-        runner = InProcRunner(recorder)
+        runner = InProcRunner(recorder, fail_jobs)
         holder = {}
 
         def fake_setup_runner(state):
@@ -269,6 +289,8 @@ def run_sim(wd, inp="infretis.toml", schedule=None, stop_after=None, recorder=No
                 status = "done"
             except StopRun:
                 status = "stopped"
+            except InjectedFailure:
+                status = "failed"                     # the program died of the job's exception, as it should
         finally:
             sched.setup_runner = orig
         st = holder.get("state")
